@@ -171,10 +171,21 @@ def _run_random(ctx, rng, st):
   seed = int(rng.randint(0, 1000))
   names = ["f%d" % i for i in range(nf)]
   monos = [int(rng.choice([0, 1])) for _ in names]
+  # the documented feature_names argument: the feature set is given explicitly and only some features (say the
+  # monotone ones) have a FeatureConfig of their own
+  explicit = bool(rng.rand() < .4)
+  cfg_names = names
+  if explicit:
+    keep = [i for i in range(nf) if rng.rand() < .5]
+    cfg_names = [names[i] for i in keep]
+    ctx.cls("random:explicit_feature_names", "random:configured=%d/%d" % (len(cfg_names), nf))
   outs = []
   for rep in range(2):
-    mc = _ens_config(tfl, names, monos, "random", nl, rank, seed)
-    pl.set_random_lattice_ensemble(mc)
+    mc = _ens_config(tfl, cfg_names, [monos[names.index(n_)] for n_ in cfg_names], "random", nl, rank, seed)
+    if explicit:
+      pl.set_random_lattice_ensemble(mc, feature_names=list(names))
+    else:
+      pl.set_random_lattice_ensemble(mc)
     outs.append([list(map(str, l)) for l in mc.lattices])
   msgs = _check_lattices(outs[0], names, nl, rank, "random ensemble")
   if outs[0] != outs[1]:
@@ -235,6 +246,19 @@ def _run_crystals(ctx, rng, st):
   monos = [int(rng.choice([0, 1])) for _ in names]
   mc = _ens_config(tfl, names, monos, "crystals", nl, rank, seed)
   pc = pl.construct_prefitting_model_config(mc)
+  if rng.rand() < .3:
+    # the same cover requested through feature_names with only part of the features configured
+    sub = [n_ for n_ in names if rng.rand() < .5]
+    mcs = _ens_config(tfl, sub, [monos[names.index(n_)] for n_ in sub], "crystals", nl, rank, seed)
+    pcs = pl.construct_prefitting_model_config(mcs, feature_names=list(names))
+    cov = set()
+    for l in pcs.lattices:
+      for a, b in itertools.combinations(sorted(map(str, l)), 2):
+        cov.add((a, b))
+    allp = {tuple(sorted(p)) for p in itertools.combinations(names, 2)}
+    ctx.cls("crystals:explicit_feature_names")
+    ctx.check("crystals/pair-cover", not (allp - cov), "explicit feature_names with %d/%d features configured: pairs never together in the prefitting cover: %s" % (
+        len(sub), nf, sorted(allp - cov)[:5]), info={"nf": nf, "configured": sub})
   pairs = {tuple(sorted(p)) for p in itertools.combinations(names, 2)}
   covered = set()
   msgs = []
